@@ -207,3 +207,34 @@ Proof.
   - apply String.eqb_eq in E. subst k'. apply String.eqb_neq in Hne. now rewrite Hne.
   - destruct (String.eqb k2 k'); [reflexivity|exact IH].
 Qed.
+
+Lemma val_eqb_refl v : val_eqb v v = true.
+Proof.
+  destruct v; simpl; try reflexivity.
+  - now destruct b.
+  - apply Z.eqb_refl.
+  - apply Qeq_bool_iff. reflexivity.
+  - apply String.eqb_refl.
+  - apply zlist_eqb_refl.
+Qed.
+
+Lemma val_eqb_sym a b : val_eqb a b = true -> val_eqb b a = true.
+Proof.
+  destruct a, b; simpl; try discriminate; try reflexivity; intros H.
+  - destruct b, b0; auto.
+  - apply Z.eqb_eq in H. subst. apply Z.eqb_refl.
+  - apply Qeq_bool_iff in H. apply Qeq_bool_iff. now symmetry.
+  - apply String.eqb_eq in H. subst. apply String.eqb_refl.
+  - apply zlist_eqb_eq in H. subst. apply zlist_eqb_refl.
+Qed.
+
+Lemma val_eqb_trans a b c : val_eqb a b = true -> val_eqb b c = true -> val_eqb a c = true.
+Proof.
+  destruct a, b; simpl; try discriminate; destruct c; simpl; try discriminate; try reflexivity;
+    intros H1 H2.
+  - destruct b, b0, b1; auto.
+  - apply Z.eqb_eq in H1, H2. subst. apply Z.eqb_refl.
+  - apply Qeq_bool_iff in H1, H2. apply Qeq_bool_iff. now rewrite H1.
+  - apply String.eqb_eq in H1, H2. subst. apply String.eqb_refl.
+  - apply zlist_eqb_eq in H1, H2. subst. apply zlist_eqb_refl.
+Qed.
